@@ -816,3 +816,103 @@ package mocrelay
 //@   ensures[C01] (result0 && result1 == nil) == (ev != nil && authentic(ev))
 //@   ensures[C01] result1 != nil ==> !result0
 //@   ensures[C01] (ev != nil && hexOK(ev.ID) && !idMatches(ev)) ==> (!result0 && result1 == nil)
+
+// ---------------------------------------------------------------------------------------------
+// channel plumbing (C07 C12 C13 C16 C17): cancellable sends
+
+//@ func sendCtx
+//@   serves C12 C13 C16 C17
+//@   opt inst.T=ServerMsg
+//@   writes contents(ch), ghost(dropped, ch)
+//@   ensures sent ==> appendedS(chanbuf(ch), old(chanbuf(ch)), v)
+//@   promises sent ==> g(dropped, ch) == old(g(dropped, ch))
+//@   ensures !sent ==> chanbuf(ch) == old(chanbuf(ch))
+//@   promises !sent ==> g(dropped, ch) == old(g(dropped, ch)) + 1
+//@   ensures chanhead(ch) == old(chanhead(ch)) && chanclosed(ch) == old(chanclosed(ch))
+
+//@ func trySendCtx
+//@   serves C07
+//@   opt inst.T=ServerMsg
+//@   writes contents(ch), ghost(dropped, ch)
+//@   ensures sent ==> appendedS(chanbuf(ch), old(chanbuf(ch)), v)
+//@   promises sent ==> g(dropped, ch) == old(g(dropped, ch))
+//@   ensures !sent ==> chanbuf(ch) == old(chanbuf(ch))
+//@   promises !sent ==> g(dropped, ch) == old(g(dropped, ch)) + 1
+//@   ensures chanhead(ch) == old(chanhead(ch)) && chanclosed(ch) == old(chanclosed(ch))
+
+//@ func isNilServerMsg
+//@   trusted reflection (reflect.ValueOf(msg).IsNil()): true iff nil interface or nil pointer payload
+//@   pure
+//@   ensures result == (isnil(msg) || refof(msg) == 0)
+//@ func isNilClientMsg
+//@   trusted reflection (reflect.ValueOf(msg).IsNil()): true iff nil interface or nil pointer payload
+//@   pure
+//@   ensures result == (isnil(msg) || refof(msg) == 0)
+
+//@ func sendServerMsgCtx
+//@   serves C12 C13 C16 C17
+//@   writes contents(ch), ghost(dropped, ch)
+//@   ensures sent ==> (appendedS(chanbuf(ch), old(chanbuf(ch)), msg) && !isnil(msg) && refof(msg) != 0)
+//@   ensures !sent ==> chanbuf(ch) == old(chanbuf(ch))
+//@   promises sent ==> g(dropped, ch) == old(g(dropped, ch))
+//@   promises !sent ==> g(dropped, ch) == old(g(dropped, ch)) + 1
+//@   ensures chanhead(ch) == old(chanhead(ch)) && chanclosed(ch) == old(chanclosed(ch))
+
+// ---------------------------------------------------------------------------------------------
+// C16: storage handlers reply completely and in order
+
+//@ iface (SimpleHandlerBase).ServeNostrStart
+//@   params(b, ctx)
+//@ iface (SimpleHandlerBase).ServeNostrEnd
+//@   params(b, ctx)
+//@ iface (SimpleHandlerBase).ServeNostrClientMsg
+//@   params(b, ctx, msg)
+//@   ensures (result1 == nil && !isnil(result0)) ==> (fresh(result0) && chanhead(result0) == 0)
+
+//@ func SimpleHandler.ServeNostr
+//@   serves C16
+//@   requires h != nil
+//@   loop 2
+//@     lwrites contents(send), contents(smsgCh), ghost(dropped, send)
+//@     invariant !isnil(smsgCh) && fresh(smsgCh) && chanbuf(smsgCh) == lold(chanbuf(smsgCh)) && lold(chanhead(smsgCh)) <= chanhead(smsgCh) && chanhead(smsgCh) <= len(chanbuf(smsgCh))
+//@     invariant g(dropped, send) >= lold(g(dropped, send))
+//@     invariant[C16] g(dropped, send) == lold(g(dropped, send)) ==> extendsBy(chanbuf(send), lold(chanbuf(send)), chanbuf(smsgCh), lold(chanhead(smsgCh)), chanhead(smsgCh))
+
+//@ func DefaultSimpleHandlerBase.ServeNostrClientMsg
+//@   serves C16
+//@   requires wfClientMsg(msg)
+//@   writes nothing
+//@   ensures result1 == nil
+//@   ensures[C16] typeis(msg, *ClientEventMsg) ==> (holdsOneS(result0) && isRejectingOK(chanbuf(result0)[0], as(msg, *ClientEventMsg).Event.ID))
+//@   ensures[C16] typeis(msg, *ClientReqMsg) ==> (holdsOneS(result0) && isClosedFor(chanbuf(result0)[0], as(msg, *ClientReqMsg).SubscriptionID))
+//@   ensures[C16] typeis(msg, *ClientCountMsg) ==> (holdsOneS(result0) && isCountFor(chanbuf(result0)[0], as(msg, *ClientCountMsg).SubscriptionID))
+//@   ensures[C16] (typeis(msg, *ClientCloseMsg) || typeis(msg, *ClientAuthMsg)) ==> isnil(result0)
+
+//@ func EventCache.Add
+//@   serves C16
+//@   trusted body verified under C04/C05 (retention); here only its result register is used
+//@   requires c != nil && event != nil
+//@   writes contents(c.evs), contents(c.deleted), eachkey(k, c.deleted, contents(c.deleted[k])), contents(c.evsIndex.idx), eachkey(k, c.evsIndex.idx, contents(c.evsIndex.idx[k])), ghost(lastadd, c), lock(c.mu)
+//@   ensures added == g(lastadd, c)
+
+//@ func EventCache.Find
+//@   serves C16
+//@   trusted body verified under C03 (query); here only its result register is used
+//@   requires c != nil
+//@   writes ghost(lastfind, c), lock(c.mu)
+//@   ensures result == g(lastfind, c)
+
+//@ func simpleCacheHandler.ServeNostrClientMsg
+//@   serves C16
+//@   requires h != nil && h.c != nil && wfClientMsg(msg)
+//@   opt overflow=assume
+//@   ensures result1 == nil
+//@   ensures[C16] typeis(msg, *ClientEventMsg) ==> (holdsOneS(result0) && isOKFor(chanbuf(result0)[0], as(msg, *ClientEventMsg).Event.ID) && as(chanbuf(result0)[0], *ServerOKMsg).Accepted == g(lastadd, h.c))
+//@   ensures[C16] (typeis(msg, *ClientEventMsg) && !g(lastadd, h.c)) ==> as(chanbuf(result0)[0], *ServerOKMsg).MsgPrefix == MachineReadablePrefixDuplicate
+//@   ensures[C16] typeis(msg, *ClientReqMsg) ==> isReqReply(result0, as(msg, *ClientReqMsg).SubscriptionID, g(lastfind, h.c))
+//@   ensures[C16] typeis(msg, *ClientCountMsg) ==> (holdsOneS(result0) && isCountFor(chanbuf(result0)[0], as(msg, *ClientCountMsg).SubscriptionID))
+//@   ensures[C16] (typeis(msg, *ClientCloseMsg) || typeis(msg, *ClientAuthMsg)) ==> isnil(result0)
+//@   loop 1 as i
+//@     lwrites contents(smsgCh)
+//@     invariant !isnil(smsgCh) && fresh(smsgCh) && !chanclosed(smsgCh) && chancap(smsgCh) == len(evs) + 1 && chanhead(smsgCh) == 0
+//@     invariant len(chanbuf(smsgCh)) == i && forall(j, 0, i, isEventMsgFor(chanbuf(smsgCh)[j], msg.SubscriptionID, evs[j]))
